@@ -110,16 +110,20 @@ structure SpanRecord where
   statusCode : Nat
   deriving Inhabited
 
-/-- the attributes one property contributes to a span (span.rs:131-166): kind, name, level, ids and `err`
-    are lifted -/
-def spanAttr (k : String) (v : PV) : Enc (List (String × AnyValue)) :=
-  if k = "evt_kind" ∨ k = "span_name" ∨ k = "lvl" ∨ k = "span_id" ∨ k = "span_parent" ∨ k = "trace_id" ∨ k = "err"
-  then .ok []
-  else (anyValue v.image).bind fun a => .ok [(k, a)]
+/-- the closure shape shared by the span and metric encoders: a lifted key contributes nothing, every other
+    property is streamed as `KeyValue { key, value: EmitValue(v) }` (`stream_attribute`, data.rs:352-370) -/
+def plainAttr (lifted : String → Bool) (k : String) (v : PV) : Enc (List (String × AnyValue)) :=
+  if lifted k then .ok [] else (anyValue v.image).bind fun a => .ok [(k, a)]
 
-def spanAttrs : List (String × PV) → Enc (List (String × AnyValue))
+def plainAttrs (lifted : String → Bool) : List (String × PV) → Enc (List (String × AnyValue))
   | [] => .ok []
-  | (k, v) :: rest => (spanAttr k v).bind fun as => (spanAttrs rest).bind fun bs => .ok (as ++ bs)
+  | (k, v) :: rest => (plainAttr lifted k v).bind fun as => (plainAttrs lifted rest).bind fun bs => .ok (as ++ bs)
+
+/-- span.rs:131-166: kind, name, level, ids and `err` are lifted out of a span's attributes -/
+def spanLifted (k : String) : Bool :=
+  k = "evt_kind" || k = "span_name" || k = "lvl" || k = "span_id" || k = "span_parent" || k = "trace_id" || k = "err"
+
+def spanAttrs : List (String × PV) → Enc (List (String × AnyValue)) := plainAttrs spanLifted
 
 /-- span.rs:200-243: the conventional `exception` event built from the FIRST `err` property -/
 def exceptionEvent (time : Nat) (err : PV) : Enc SpanEvent :=
@@ -135,36 +139,44 @@ def nameOr (key : String) (e : Event) : String :=
   | some v => v.display
   | none => e.msg
 
+/-- status code from the level when there is no error (span.rs:253-257): Ok = 1 for debug / info, Error = 2 -/
+def levelStatusCode : Level → Nat
+  | .debug => 1 | .info => 1 | .warn => 2 | .error => 2
+
+/-- span.rs:192-268: the `exception` event and the status. `has_err` is set while the de-duplicated properties are
+    streamed; the error value is then `props.get("err")` (the first one). -/
+def spanErrPart (e : Event) (ps : List (String × PV)) (endNanos : Nat) (level : Level) :
+    Enc (List SpanEvent × String × Nat) :=
+  match (if (ps.map Prod.fst).contains "err" then lookupFirst "err" e.props else none) with
+  | some err => (exceptionEvent endNanos err).bind fun ev => .ok ([ev], err.display, 2)
+  | none => .ok ([], level.display, levelStatusCode level)
+
+/-- traces.rs:58-77 + span.rs:100-270 for a span event with the range extent `a..b` -/
+def spanBody (e : Event) (a b : Ts) : Enc SpanRecord :=
+  let ps := e.deduped
+  let level := ((lookupLast "lvl" ps).bind PV.castLevel).getD .info
+  (spanAttrs ps).bind fun attrs =>
+    (spanErrPart e ps b.otlpNanos level).bind fun x => .ok {
+      scope := e.mdl
+      name := nameOr "span_name" e
+      kind := 0
+      startTimeUnixNano := a.otlpNanos
+      endTimeUnixNano := b.otlpNanos
+      traceId := (lookupLast "trace_id" ps).bind (PV.castId 128)
+      spanId := (lookupLast "span_id" ps).bind (PV.castId 64)
+      parentSpanId := (lookupLast "span_parent" ps).bind (PV.castId 64)
+      attributes := attrs
+      events := x.1
+      statusMessage := x.2.1
+      statusCode := x.2.2 }
+
 /-- `none`: the event is not a span with a range extent, nothing is encoded (traces.rs:41-56) -/
 def spanRecord (e : Event) : Option (Enc SpanRecord) :=
-  if !e.isKind .span then none
-  else match e.extent with
-    | .range a b =>
-      let ps := e.deduped
-      let level := ((lookupLast "lvl" ps).bind PV.castLevel).getD .info
-      some ((spanAttrs ps).bind fun attrs =>
-        -- `has_err` is set while streaming the attributes; the value is then `props.get("err")` (span.rs:201)
-        let evs : Enc (List SpanEvent × String × Nat) :=
-          match (if (keys' ps).contains "err" then lookupFirst "err" e.props else none) with
-          | some err => (exceptionEvent b.otlpNanos err).bind fun ev => .ok ([ev], err.display, 2)
-          | none => .ok ([], level.display, match level with
-            | .debug => 1 | .info => 1 | .warn => 2 | .error => 2)
-        evs.bind fun (events, msg, code) => .ok {
-          scope := e.mdl
-          name := nameOr "span_name" e
-          kind := 0
-          startTimeUnixNano := a.otlpNanos
-          endTimeUnixNano := b.otlpNanos
-          traceId := (lookupLast "trace_id" ps).bind (PV.castId 128)
-          spanId := (lookupLast "span_id" ps).bind (PV.castId 64)
-          parentSpanId := (lookupLast "span_parent" ps).bind (PV.castId 64)
-          attributes := attrs
-          events := events
-          statusMessage := msg
-          statusCode := code })
+  if e.isKind .span then
+    match e.extent with
+    | .range a b => some (spanBody e a b)
     | _ => none
-where
-  keys' (ps : List (String × PV)) : List String := ps.map Prod.fst
+  else none
 
 /-! ### Metrics: /repo/emitter/otlp/src/data/metrics.rs:47-365, metrics/metric.rs -/
 
@@ -248,47 +260,53 @@ structure MetricRecord where
   points : List DataPoint
   deriving Inhabited
 
-/-- the attributes one property contributes to a metric (metrics.rs:91-113; after the repair
+/-- metrics.rs:91-113: the metric's own keys, the ids and the kind are lifted (after the repair
     `fix: OTLP metric attributes come from de-duplicated properties` the loop runs over `props().dedup()`) -/
-def metricAttr (k : String) (v : PV) : Enc (List (String × AnyValue)) :=
-  if k = "metric_unit" ∨ k = "metric_name" ∨ k = "metric_value" ∨ k = "metric_agg" ∨ k = "span_id" ∨
-     k = "span_parent" ∨ k = "trace_id" ∨ k = "evt_kind"
-  then .ok []
-  else (anyValue v.image).bind fun a => .ok [(k, a)]
+def metricLifted (k : String) : Bool :=
+  k = "metric_unit" || k = "metric_name" || k = "metric_value" || k = "metric_agg" || k = "span_id" ||
+  k = "span_parent" || k = "trace_id" || k = "evt_kind"
 
-def metricAttrs : List (String × PV) → Enc (List (String × AnyValue))
-  | [] => .ok []
-  | (k, v) :: rest => (metricAttr k v).bind fun as => (metricAttrs rest).bind fun bs => .ok (as ++ bs)
+def metricAttrs : List (String × PV) → Enc (List (String × AnyValue)) := plainAttrs metricLifted
+
+/-- (start, time, aggregation temporality) from the extent (metrics.rs:61-81): none → Unspecified = 0,
+    range → Delta = 1, point → Cumulative = 2 -/
+def metricTimes : Extent → Nat × Nat × Nat
+  | .none => (0, 0, 0)
+  | .range a b => (a.otlpNanos, b.otlpNanos, 1)
+  | .point t => (t.otlpNanos, t.otlpNanos, 2)
+
+/-- metrics.rs:115-152: the data points from the extracted samples; `none` = a gauge without samples -/
+def metricPoints (agg : Option String) (start time temporality : Nat) (attrs : List (String × AnyValue))
+    (pts : List Pt) : Option (MetricData × List DataPoint) :=
+  if agg = some "sum" then some (.sum temporality false, [⟨start, time, sumPts pts, attrs⟩])
+  else if agg = some "count" then some (.sum temporality true, [⟨start, time, sumPts pts, attrs⟩])
+  else (gaugePoints start time attrs pts).map fun points => (.gauge, points)
+
+/-- metrics.rs:56-158 for a metric event whose first `metric_value` is `value`. The attributes are collected
+    BEFORE the samples are extracted, so a panic of the any-value bridge wins over "nothing encoded". -/
+def metricBody (e : Event) (value : PV) : Option (Enc MetricRecord) :=
+  let ps := e.deduped
+  match metricAttrs ps with
+  | .panic => some .panic
+  | .ok attrs =>
+    let t := metricTimes e.extent
+    let unit := match lookupLast "metric_unit" ps with
+      | some u => u.display
+      | none => ""
+    let agg := (lookupFirst "metric_agg" e.props).bind PV.str?
+    match extractPts false value.image with
+    | none => none
+    | some pts => match metricPoints agg t.1 t.2.1 t.2.2 attrs pts with
+      | none => none
+      | some (data, points) => some (.ok ⟨e.mdl, nameOr "metric_name" e, unit, data, points⟩)
 
 /-- `none`: nothing is encoded — not a metric, no `metric_value`, or the value has no numeric samples
-    (metrics.rs:51-60, `points_from_value(..)?`). The attributes are collected BEFORE the samples are
-    extracted, so a panic of the any-value bridge wins over "nothing encoded". -/
+    (metrics.rs:51-60, `points_from_value(..)?`) -/
 def metricRecord (e : Event) : Option (Enc MetricRecord) :=
-  if !e.isKind .metric then none
-  else match lookupFirst "metric_value" e.props with
+  if e.isKind .metric then
+    match lookupFirst "metric_value" e.props with
     | none => none
-    | some value =>
-      let (start, time, temporality) : Nat × Nat × Nat := match e.extent with
-        | .none => (0, 0, 0)
-        | .range a b => (a.otlpNanos, b.otlpNanos, 1)
-        | .point t => (t.otlpNanos, t.otlpNanos, 2)
-      let ps := e.deduped
-      match metricAttrs ps with
-      | .panic => some .panic
-      | .ok attrs =>
-        let unit := match lookupLast "metric_unit" ps with
-          | some u => u.display
-          | none => ""
-        let agg := (lookupFirst "metric_agg" e.props).bind PV.str?
-        let mk (data : MetricData) (points : List DataPoint) : Option (Enc MetricRecord) :=
-          some (.ok ⟨e.mdl, nameOr "metric_name" e, unit, data, points⟩)
-        match extractPts false value.image with
-        | none => none
-        | some pts =>
-          if agg = some "sum" then mk (.sum temporality false) [⟨start, time, sumPts pts, attrs⟩]
-          else if agg = some "count" then mk (.sum temporality true) [⟨start, time, sumPts pts, attrs⟩]
-          else match gaugePoints start time attrs pts with
-            | none => none
-            | some points => mk .gauge points
+    | some value => metricBody e value
+  else none
 
 end EmitModel.Encode
